@@ -111,6 +111,22 @@ CHECKS.update({
             "The same request byte stream (grammar-generated: pipelined requests, Content-Length and chunked bodies with extensions/trailers, 15 line-level and 12 chunk-framing defects, header sections padded to the 8192-byte limit, byte-level mutations) is delivered 1-11 times under different fragmentations (fixed k, random, cuts at line/chunk boundaries +-2, single cut anywhere) to the real incremental parser, and in server mode to the real HTTPServer socket loop over simulated sockets (short sends, EAGAIN, EPIPE, resets, worker latency): every delivery must dispatch the same request sequence / same error as single-chunk delivery and as an independent whole-stream reference parser; disallowed client addresses get nothing; the JSON-RPC handler runs only with valid credentials.",
             "The static URL dispatcher and the HTTP worker thread pool are replaced by a recording dispatcher answering at I/O-loop iteration boundaries (no real threads); httprpc.cpp is compiled a second time inside the engine (internal linkage), with its 250 ms sleep turned into simulated time; idle timeout (real steady clock) disabled.",
             COMP_TECH + " and simulated sockets (Sock seam)", "DESIGN.md §5 C52"),
+    "C57": ("nodesim/assumevalid", "exploration",
+            "Real node with per-run assumevalid (descendant/self/ancestor/sibling/unknown/unannounced/zero/unset) and minimumchainwork (equal, +-1..2 units, far) over seeded trees of 2100-4500 headers with one probe block at height 101-280 carrying an invalid signature (P2WPKH/P2TR/P2PKH/P2SH-P2WPKH/P2WSH), buried 0..2018+ blocks (aimed at 2015/2016/2017 and the two-week equivalent-time boundary), competing header branches (more/less/equal work, forking below/above the probe), header/block delivery orders, reorg away and back. Whenever the probe block is connected without script checks, the model's five conditions (assumed-valid header known, probe is its ancestor, probe under a most-work known header, that header >= minimumchainwork, > 2 weeks of equivalent work on top) must all hold, each with its own violation class.",
+            "One-directional (only-if) as stated; the converse (scripts really skipped when all hold) is only counted. Regtest difficulty is constant; script-check workers 0; no restart/reindex/assumeutxo in this engine.",
+            CHAIN_TECH + "; oracle = independent work arithmetic over the model's header tree", "DESIGN.md §5 C57"),
+    "C55": ("nodesim/mempool-persist", "fault_enumeration",
+            "Three real nodes (source, load target, twin) on one generated chain; seeded mempool histories on the source (chains, prioritisation incl. absent txids, unbroadcast marks, clock to the expiry boundary +-1 s, blocks, reorgs), then DumpMempool through simfs with ENOSPC/short write/fsync EIO/disk-full-for-good and enumeration of every kill and power-loss image of the dump's file operations; LoadMempool through the FopenFn seam from intact, re-keyed, v1, short-read, truncated (12 structural offset classes and full sweeps), EIO, byte-flipped, bad-version/key and missing files into a target that may already hold entries. Dump file == pool (wtxid, time, delta; parents first; absent deltas; unbroadcast set); failed dump leaves the previous complete file; every crash image is the old or new complete file; intact load == twin's normal submission of the unexpired records in order with saved time/delta/unbroadcast; damaged load returns false on strict prefix/EIO/missing, adds only what the twin accepts and loses no pre-existing entry except by expiry or an accepted conflict.",
+            "Loading into the very node that dumped is covered by a fresh node on the same chain; mempool size/min-fee knobs not varied; power-loss semantics are the simfs model (see C16).",
+            "deterministic simulation with fault injection: real DumpMempool/LoadMempool over simfs crash images and a scripted FopenFn; oracle = own file parser + twin node", "DESIGN.md §5 C55"),
+    "C23": ("nodesim/block-template", "exploration",
+            "MempoolSim histories plus own ops (nLockTime at height/MTP -1/0, sigop-heavy outputs, prioritisation, reorgs to MTP+1-time branches lowering the MTP) with the clock stepping backwards before template creation; per-template option space: max weight aimed at the weight of the first k baseline transactions +-1..3, reserved weight, block_min_fee_rate, coinbase sigop reservation aimed at 80000 - sigops(first k) +-1..5, use_mempool, 7 coinbase scripts. Every template: on tip, one coinbase, no duplicates, parents first, inputs in model UTXO or earlier in the template, fees == inputs - outputs, own weight sum + reserved <= max, own sigop count + reservation <= 80000, every tx final for tip+1 at MTP by the model, coinbase == subsidy + fees, TestBlockValidity on the raw and the solved block, model verdict VALID, and ProcessNewBlock makes it the tip of a cold twin node (or of the node itself).",
+            "Landing exactly on a limit is within the limit; block_min_fee_rate and per-tx sigop entries are not in the statement and not decided.",
+            "deterministic simulation: real miner + mempool + validation under seeded histories and clock faults; oracle = own weight/sigop/finality/fee recomputation + reference chain model + twin node", "DESIGN.md §5 C23"),
+    "C29": ("nodesim/packages", "exploration",
+            "MempoolSim histories plus own package ops: DAG packages of 1-28 transactions in 7 topologies x 8 mutations (shuffle, swap, reverse, duplicate, same-txid-different-witness, internal conflict, extra conflicting tx) x 6 fee modes, members pre-submitted / mined / replaced by witness twins, replays of earlier packages after blocks and reorgs, packages aimed at total weight 404000 +-1..4, small-mempool runs where LimitMempoolSize evicts members. A package violating count/weight/duplicate/conflict/order/child-with-parents is never evaluated and changes nothing; after every call no member is in the mempool while an in-package parent is neither in the mempool nor confirmed (model); VALID/MEMPOOL_ENTRY => wtxid present, DIFFERENT_WITNESS => txid present, INVALID => wtxid absent.",
+            "A single transaction above the package weight limit is evaluated (and refused as tx-size) by documented design in packages.cpp; exempted. test_accept does not require child-with-parents (documented).",
+            "deterministic simulation: real node + mempool under seeded package histories; oracle = own package-rule checker + mempool snapshots + reference chain model", "DESIGN.md §5 C29"),
 })
 
 PURE = "pure function of its input: no schedule, clock, fault, peer or store in it (DESIGN.md §6)"
